@@ -67,8 +67,9 @@ pub open spec fn embeds_s(a: TextSelection, b: TextSelection) -> bool { a.begin 
 /// (interval arithmetic; `all` has no meaning for a pair).
 pub open spec fn rel_pos(op: TextSelectionOperator, a: TextSelection, b: TextSelection, res: &TextResource) -> bool {
     match op {
-        TextSelectionOperator::Equals { .. } => a == b,
-        TextSelectionOperator::InSet { .. } => a == b,
+        // (equality is equality of the ranges - the interval-arithmetic definition - whether or not a selection carries a handle)
+        TextSelectionOperator::Equals { .. } => a.begin == b.begin && a.end == b.end,
+        TextSelectionOperator::InSet { .. } => a.begin == b.begin && a.end == b.end,
         TextSelectionOperator::Overlaps { .. } => (a.begin < b.end && b.begin < a.end) || embeds_s(a, b) || embeds_s(b, a),
         TextSelectionOperator::Embeds { .. } => embeds_s(a, b),
         TextSelectionOperator::Embedded { limit, .. } => embeds_s(b, a) && (match limit {
@@ -215,8 +216,8 @@ pub open spec fn subject_by_bound(op: TextSelectionOperator) -> bool {
 /// one subject range against a reference set, ignoring `negate`
 pub open spec fn s1_pos(op: TextSelectionOperator, a: TextSelection, bs: Seq<TextSelection>, res: &TextResource) -> bool {
     match op {
-        TextSelectionOperator::Equals { .. } => exists|j: int| 0 <= j < bs.len() && a == #[trigger] bs[j],
-        TextSelectionOperator::InSet { .. } => exists|j: int| 0 <= j < bs.len() && a == #[trigger] bs[j],
+        TextSelectionOperator::Equals { .. } => exists|j: int| 0 <= j < bs.len() && a.begin == (#[trigger] bs[j]).begin && a.end == bs[j].end,
+        TextSelectionOperator::InSet { .. } => exists|j: int| 0 <= j < bs.len() && a.begin == (#[trigger] bs[j]).begin && a.end == bs[j].end,
         TextSelectionOperator::SameRange { .. } => bs.len() > 0 && rel_pos(op, a, bound(bs), res),
         TextSelectionOperator::Precedes { all: true, .. } => bs.len() > 0 && rel_pos(op, a, bound(bs), res),
         TextSelectionOperator::Succeeds { all: true, .. } => bs.len() > 0 && rel_pos(op, a, bound(bs), res),
